@@ -1,7 +1,162 @@
 import KitModel.Go.Prelude
-/-! Driver for property C15: `kitdrv C15` reads op lines on stdin, one answer line per input line. -/
+import KitModel.TTLCache
+/-! Driver for property C15: `kitdrv C15` reads op lines on stdin, one answer line per input line.
+
+Sequential protocol (exact differential against the real cache under a fake clock):
+  `new max=<int> t0=<int ns>`   → `ok`
+  `set k=<key> v=<nat> ttl=<int>` → `ok` | `panic`
+  `get k=<key>`  → `hit v=<nat>` | `miss`
+  `del k=<key>` | `cleanup` | `reset` | `adv d=<nat ns>` → `ok`
+  `dump` → `n=<len> e=<k>:<v>:<sec>.<nsec>;…` (sorted by key; expiry as Unix seconds, nanoseconds)
+-/
 namespace Driver.C15
+open Kit Kit.TTLCache
+
+def insertSorted (p : Key × Entry) : List (Key × Entry) → List (Key × Entry)
+  | [] => [p]
+  | q :: qs => if p.1 < q.1 then p :: q :: qs else q :: insertSorted p qs
+
+def sortByKey (m : List (Key × Entry)) : List (Key × Entry) :=
+  m.foldl (fun acc p => insertSorted p acc) []
+
+def showTime (t : Int) : String := s!"{t / 1000000000}.{t % 1000000000}"
+
+def showDump (c : Cache) : String :=
+  let live := (mkeys c.m).eraseDups.filterMap (fun k => (mget c.m k).map (fun e => (k, e)))
+  let es := (sortByKey live).map (fun (k, e) => s!"{k}:{e.val}:{showTime e.exp}")
+  s!"n={live.length} e={";".intercalate es}"
+
+def showOut : Out → String
+  | .done => "ok"
+  | .hit v => s!"hit v={v}"
+  | .miss => "miss"
+  | .panic => "panic"
+
+def parseOp (l : Line) : Option Op :=
+  match l.op with
+  | "set" => do
+      let k ← l.get? "k"; let v ← l.nat? "v"; let ttl ← l.int? "ttl"
+      pure (.set k v ttl)
+  | "get" => do let k ← l.get? "k"; pure (.get k)
+  | "del" => do let k ← l.get? "k"; pure (.delete k)
+  | "cleanup" => some .cleanup
+  | "reset" => some .reset
+  | "adv" => do let d ← l.nat? "d"; pure (.advance d)
+  | _ => none
+
+def seqStep (c : Cache) (s : String) : Cache × String :=
+  let l := parseLine s
+  match l.op with
+  | "new" =>
+    match l.int? "max", l.int? "t0" with
+    | some mx, some t0 => (Cache.init mx t0, "ok")
+    | _, _ => (c, "error")
+  | "dump" => (c, showDump c)
+  | _ =>
+    match parseOp l with
+    | some op => let (c', o) := step c op; (c', showOut o)
+    | none => (c, "error")
+
+/-! Scheduled-interleaving protocol (concurrent LTS `cstep`; every answer is produced by running
+labels through `crun`, a line whose labels are not enabled answers `error`):
+  `cnew max= t0= iv=<ns>` → `ok`
+  `set` / `get` / `del` / `dump` as above;  `adv d=` → `ok tick=sent|drop|none`
+  `cbegin id=<n> kind=cleanup|reset` → `snap keys=a,b`   (cBegin, then the coarse snapshot)
+  `cfinish id=<n>` → `ok`                                  (coarse bulk delete, cEnd)
+  `bgsnap` → `snap keys=…` (periodic goroutine takes the pending tick and snapshots); `bgfinish` → `ok`
+  `stop` → `ok` (stopCall, bgExit, stopReturn)
+-/
+
+def sortStrings (xs : List String) : List String :=
+  xs.foldl (fun acc x =>
+    let rec ins : List String → List String
+      | [] => [x]
+      | y :: ys => if x < y then x :: y :: ys else y :: ins ys
+    ins acc) []
+
+def showSnap (s : CState) (id : Nat) : String :=
+  match findCl s.cls id with
+  | some c => s!"snap keys={",".intercalate (sortStrings (c.keys.map (·.1)).eraseDups)}"
+  | none => "error"
+
+def cdump (s : CState) : String :=
+  showDump { m := s.m.map (fun p => (p.1, p.2.1)), now := s.now, maxTTL := s.maxTTL }
+
+def runLabels (s : CState) (ls : List Label) (ok : CState → String) : CState × String :=
+  match crun s ls with
+  | some s' => (s', ok s')
+  | none => (s, "error")
+
+def concStep (s : CState) (l : Line) : CState × String :=
+  match l.op with
+  | "set" =>
+    match l.get? "k", l.nat? "v", l.int? "ttl" with
+    | some k, some v, some ttl =>
+      if ttl ≤ 0 then (s, "panic") else runLabels s [.set k v ttl] (fun _ => "ok")
+    | _, _, _ => (s, "error")
+  | "get" =>
+    match l.get? "k" with
+    | some k =>
+      let r := getOfC s k
+      runLabels s [.get k r] (fun _ => match r with | some v => s!"hit v={v}" | none => "miss")
+    | none => (s, "error")
+  | "del" =>
+    match l.get? "k" with
+    | some k => runLabels s [.delete k] (fun _ => "ok")
+    | none => (s, "error")
+  | "adv" =>
+    match l.nat? "d" with
+    | some d =>
+      let due := !s.tickerStopped && decide (s.nextTick ≤ s.now + d) && decide (0 < s.period)
+      let t := if due then (if s.tickPending then "drop" else "sent") else "none"
+      runLabels s [.advance d] (fun _ => s!"ok tick={t}")
+    | none => (s, "error")
+  | "cbegin" =>
+    match l.nat? "id", l.get? "kind" with
+    | some id, some kind =>
+      if kind != "cleanup" && kind != "reset" then (s, "error") else
+      match cstep s (.cBegin id (kind == "reset")) with
+      | some s1 => match crun s1 (snapLabels s1 id) with
+        | some s2 => (s2, showSnap s2 id)
+        | none => (s, "error")
+      | none => (s, "error")
+    | _, _ => (s, "error")
+  | "cfinish" =>
+    match l.nat? "id" with
+    | some id => if id = 0 then (s, "error") else runLabels s (bulkLabels s id) (fun _ => "ok")
+    | none => (s, "error")
+  | "bgsnap" =>
+    match cstep s .bgTake with
+    | some s1 => match crun s1 (snapLabels s1 0) with
+      | some s2 => (s2, showSnap s2 0)
+      | none => (s, "error")
+    | none => (s, "error")
+  | "bgfinish" => runLabels s (bulkLabels s 0) (fun _ => "ok")
+  | "stop" => runLabels s [.stopCall, .bgExit, .stopReturn] (fun _ => "ok")
+  | "dump" => (s, cdump s)
+  | _ => (s, "error")
+
+inductive DState where
+  | seq (c : Cache)
+  | conc (s : CState)
+
+def drvStep (st : DState) (line : String) : DState × String :=
+  let l := parseLine line
+  match l.op with
+  | "new" =>
+    match l.int? "max", l.int? "t0" with
+    | some mx, some t0 => (.seq (Cache.init mx t0), "ok")
+    | _, _ => (st, "error")
+  | "cnew" =>
+    match l.int? "max", l.int? "t0", l.int? "iv" with
+    | some mx, some t0, some iv => (.conc (CState.init mx t0 iv), "ok")
+    | _, _, _ => (st, "error")
+  | _ =>
+    match st with
+    | .seq c => let (c', o) := seqStep c line; (.seq c', o)
+    | .conc s => let (s', o) := concStep s l; (.conc s', o)
+
 def main (_args : List String) : IO UInt32 := do
-  IO.eprintln "kitdrv: C15 has no model driver yet"
-  return 2
+  lineLoop drvStep (.seq (Cache.init 0 0))
+  return 0
 end Driver.C15
